@@ -1,8 +1,11 @@
 package engine
 
 import (
+	"encoding/json"
 	"fmt"
+	"os"
 	"path/filepath"
+	"strings"
 
 	"verif/lib"
 )
@@ -16,6 +19,14 @@ import (
 // or + the writes up to the last fsync <= i ("cut at last fsync").
 
 func init() { verifChecks["C03"] = runC03 }
+
+// c03D6Listed: crash points inside the D6 predicate that known_findings.json lists one by one as failing;
+// c03ListKeys: emit the keys of failing ones as tags (tools_known_list.py writes the list from them).
+var (
+	c03D6Listed = map[string]bool{}
+	c03ListKeys bool
+	c03UseList  bool
+)
 
 type c03Cfg struct {
 	hist     histCfg
@@ -50,6 +61,21 @@ func runC03(env *lib.Env, rep *lib.Report) {
 	}
 	rep.Bounds["configs"] = names
 	open := env.OpenKnown()
+	c03UseList = !env.Thorough()
+	c03ListKeys = os.Getenv("VERIF_C03_LISTKEYS") != ""
+	c03D6Listed = map[string]bool{}
+	if k, ok := open["D6-root-move-not-atomic"]; ok && len(k.Args) > 0 {
+		var a struct {
+			Inputs []string `json:"failing_inputs"`
+		}
+		if err := json.Unmarshal(k.Args, &a); err != nil {
+			panic(lib.HarnessError{Msg: "known_findings.json: D6 args: " + err.Error()})
+		}
+		for _, h := range a.Inputs {
+			c03D6Listed[h] = true
+		}
+	}
+	rep.Bounds["crash points inside the D6 predicate"] = fmt.Sprintf("%d are listed individually (history + statement + cut) as failing in known_findings.json; any other failing one is a violation (beyond the quick tier's bounds the whole predicate counts)", len(c03D6Listed))
 	explore(env, rep, 0, c03Body(cfgs, open))
 }
 
@@ -170,11 +196,25 @@ func c03Body(cfgs []c03Cfg, known map[string]lib.KnownEntry) lib.Body {
 		if _, ok := known["D5-incomplete-tail-record"]; ok && eff%2 == 1 {
 			knownID = "D5-incomplete-tail-record"
 		}
+		// Within the D6 predicate the recovered state is sometimes still a row prefix (the rows that stay
+		// visible happen to be the first ones). In the quick tier's bounds the failing crash points are listed
+		// one by one in known_findings.json (hash of history + statement + cut); any other one must hold.
 		defer func() {
 			if knownID != "" {
-				if c.Failed() {
+				// (the key covers the whole execution: history, statement, cut and what was done after recovery)
+				d6Key := ""
+				if knownID == "D6-root-move-not-atomic" && c03UseList {
+					d6Key = fmt.Sprintf("%016x", lib.HashString(strings.Join(c.Trace(), "\n")))
+				}
+				switch {
+				case c.Failed() && d6Key != "" && c03ListKeys:
+					c.Tag("d6-failing-key:" + d6Key)
 					c.SetKnown(knownID)
-				} else {
+				case c.Failed() && d6Key != "" && !c03D6Listed[d6Key]:
+					c.Logf("this crash point is inside the D6 predicate but is not one of the %d listed failing inputs (key %s)", len(c03D6Listed), d6Key)
+				case c.Failed():
+					c.SetKnown(knownID)
+				default:
 					c.Tag("known-not-violating:" + knownID)
 				}
 			}
